@@ -101,7 +101,17 @@ pub fn check(cx: &Cx, rep: &mut Report) {
                         // did any instance end between lookup return and the call's end? then the failure is legitimate
                         let died_meanwhile = ends.iter().any(|(_, s)| *s > r && call.e.map(|e| *s < e).unwrap_or(true));
                         let any_dead_before = ends.iter().any(|(_, s)| *s < o.b);
-                        if !died_meanwhile && any_dead_before {
+                        // (a failed call is no proof of death: see try_from_registry below)
+                        let call_end = call.e.unwrap_or(u64::MAX);
+                        let type_tags: Vec<u32> = std::iter::once(tag).chain(cx.prog.actors.iter().filter(|d| d.k as u32 == k).map(|d| d.tag)).collect();
+                        let winding_down = tasks.iter().any(|t| {
+                            let born = ix.task_kind.get(t).map(|x| x.2).or_else(|| ix.cbs.iter().filter(|c| c.actor == *t && c.cb == crate::log::Cb::Started).map(|c| c.i).min());
+                            let alive_at_lookup = born.map(|b| b < call.b).unwrap_or(false) && !ends.iter().any(|(et, s)| et == t && *s < o.b);
+                            let stop_requested = ix.ev.iter().any(|e| e.stamp < call_end && matches!(&e.k, K::Effect { actor, what, ok: true, .. } if actor == t && (*what == "ctx_stop" || *what == "reap_stop")))
+                                || ix.ops.iter().any(|p| type_tags.contains(&p.tag) && matches!(p.op, OpK::Stop | OpK::Halt | OpK::Consume | OpK::ConsumeSync) && p.executed() && p.b < call_end);
+                            alive_at_lookup && stop_requested
+                        });
+                        if !died_meanwhile && any_dead_before && !winding_down {
                             nontrivial = true;
                             rep.fail(P, "R3", "from_registry_returned_dead_instance", format!("from_registry c{}#{} (begun #{}, after an instance had terminated un-awaited) returned an address whose immediate call failed with {:?}", o.c, o.i, o.b, call.res), vec![o.b, call.b]);
                         }
@@ -117,7 +127,19 @@ pub fn check(cx: &Cx, rep: &mut Report) {
                         let r = o.e.unwrap_or(0);
                         let died_meanwhile = ends.iter().any(|(_, s)| *s > o.b && call.e.map(|e| *s < e).unwrap_or(true));
                         let _ = r;
-                        if !died_meanwhile {
+                        // a failed call is no proof of death: an instance that has accepted a stop request and is still
+                        // winding down (running, so rightly handed out) need not handle what is submitted after that
+                        // request - whether the library queues and discards it or refuses it at once
+                        let call_end = call.e.unwrap_or(u64::MAX);
+                        let type_tags: Vec<u32> = std::iter::once(tag).chain(cx.prog.actors.iter().filter(|d| d.k as u32 == k).map(|d| d.tag)).collect();
+                        let winding_down = tasks.iter().any(|t| {
+                            let born = ix.task_kind.get(t).map(|x| x.2).or_else(|| ix.cbs.iter().filter(|c| c.actor == *t && c.cb == crate::log::Cb::Started).map(|c| c.i).min());
+                            let alive_at_lookup = born.map(|b| b < call.b).unwrap_or(false) && !ends.iter().any(|(et, s)| et == t && *s < o.b);
+                            let stop_requested = ix.ev.iter().any(|e| e.stamp < call_end && matches!(&e.k, K::Effect { actor, what, ok: true, .. } if actor == t && (*what == "ctx_stop" || *what == "reap_stop")))
+                                || ix.ops.iter().any(|p| type_tags.contains(&p.tag) && matches!(p.op, OpK::Stop | OpK::Halt | OpK::Consume | OpK::ConsumeSync) && p.executed() && p.b < call_end);
+                            alive_at_lookup && stop_requested
+                        });
+                        if !died_meanwhile && !winding_down {
                             rep.fail(P, "R3", "try_from_registry_returned_dead_instance", format!("try_from_registry c{}#{} returned an address whose immediate call failed with {:?}", o.c, o.i, call.res), vec![o.b, call.b]);
                         }
                     }
